@@ -107,6 +107,7 @@ type Exec struct {
 
 type pathResult struct {
 	hasDeeper     bool
+	auditUnknown  int
 	siteReach     map[string]int
 	siteSym       map[string]int
 	discharged    int
@@ -713,13 +714,21 @@ func (ex *Exec) assertNow(pa *pendingAssert) {
 	}
 	if q != tFalse {
 		verdict, model, by := ex.checkProp(q, true)
-		if folded && verdict != "unsat" {
+		if folded && (verdict == "sat" || verdict == "disagreement") {
 			ex.res.auditFail = append(ex.res.auditFail, "assertion folded to true by rewriting but solver answered "+verdict+" at "+pa.site)
+		}
+		if folded && verdict != "unsat" && verdict != "sat" && verdict != "disagreement" {
+			// the solvers gave up on a query the rewriting layer settles: the rewriting verdict stands, unaudited
+			ex.res.folded++
+			ex.res.auditUnknown++
+			verdict = "folded"
 		}
 		if ex.res.sampleSMT == "" && q.hasVars() {
 			ex.res.sampleSMT = ex.dumpQuery(q)
 		}
 		switch verdict {
+		case "folded":
+			proved = len(pa.listed) == 0
 		case "unsat":
 			ex.res.discharged++
 			proved = len(pa.listed) == 0
